@@ -82,6 +82,28 @@ theorem set_iterator_program (c : HCfg) (s : HashSet) (m : Mem) (bs : List Bool)
     (s.size ≤ bs.length → (HashSet.drive c bs s (s.iterInit m).1 m).1 = s.abs) :=
   HashSet.iter_program c s m bs h hl
 
+/-- `traversal_complete` (the name used across containers): a fresh iterator and `n ≥ size` calls of
+`next` yield a list whose key/value pairs are exactly the map (in walk order, hence a permutation of
+any other presentation of the map), with pairwise distinct keys, then END — at every fill level,
+under every hash function -/
+theorem traversal_complete (c : HCfg) (t : HashTable) (m : Mem) (n : Nat) (sp : Map) (h : t.Inv c)
+    (hl : t.size + 2 ≤ m.live) (hn : t.size ≤ n) (hs : t.abs.Perm sp) :
+    ((HashTable.drive c (List.replicate n false) t (t.iterInit m).1 m).1.map HashTable.pair).Perm sp ∧
+    (HashTable.drive c (List.replicate n false) t (t.iterInit m).1 m).1.length = t.size := by
+  obtain ⟨f1, _, f3, _⟩ := fresh_iterator_yields_all c t m n h hl hn
+  exact ⟨by rw [f1]; exact hs, f3⟩
+
+/-- `program_refines`: any program with at most one removal per yield simulates the ideal cursor
+`(done, todo)` over the walk: yields = prefix of `todo`, content = original minus the removed -/
+theorem program_refines (c : HCfg) (bs : List Bool) (t : HashTable) (it : HIter) (m : Mem) (todo : List Entry)
+    (h : t.Inv c) (hit : HashTable.ItInv t it todo) (hnd : (todo.map (·.key)).Nodup) (hl : t.size + 2 ≤ m.live) :
+    (HashTable.drive c bs t it m).1 = todo.take bs.length ∧
+    (HashTable.drive c bs t it m).2.1.Inv c ∧
+    (HashTable.drive c bs t it m).2.1.abs = t.abs.filter (fun p => !(HashTable.removedKeys todo bs).contains p.1) ∧
+    HashTable.ItInv (HashTable.drive c bs t it m).2.1 (HashTable.drive c bs t it m).2.2.1 (todo.drop bs.length) := by
+  obtain ⟨d1, d2, d3, d4, _⟩ := HashTable.drive_spec c bs t it m todo h hit hnd hl
+  exact ⟨d1, d2, d3, d4⟩
+
 /-- non-vacuity: a constant-hash table, remove the 1st and 3rd yielded entries -/
 def exTable : HashTable :=
   { capacity := 8, size := 3, threshold := 6,
